@@ -11,7 +11,7 @@ from vlib.runner import Hyp, Violation, exc_bucket
 ID = "C12"
 LEVEL = "exploration"
 RULE = (
-    "Hypothesis lists of length 0-8 (one in 25: 33-300 entries) drawn (with duplicates and permutations) from a per-list pool of entries: 2- and 3-element "
+    "Hypothesis lists of length 0-8 (one in 25: 33-150 entries) drawn (with duplicates and permutations) from a per-list pool of entries: 2- and 3-element "
     "entries over every colour spelling, ~60% needing a fix (pairs constructed below a threshold), plus invalid entries whose text "
     "or background is G-junk; x mode x very_readable. Oracle per entry: same colour as a fresh ColorPair(...).make_readable, "
     "status = O-WCAG label of (O-CSS(result), background) at that text size; invalid entries returned unchanged and never "
@@ -106,7 +106,7 @@ def judge(case):
     nt = None
     if (n_invalid >= 1 and n_fixed >= 1) or len(arities) == 2 or case.get("band"):
         nt = str(case["entries"]) + str((mode, very))
-    return {"nt": nt, "cls": [(f"len:{len(entries)}" if len(entries) <= 8 else "len:long(33-300)"), f"invalid:{min(n_invalid, 3)}", f"fixed:{min(n_fixed, 3)}", "mixed-arity" if len(arities) == 2 else "one-arity"],
+    return {"nt": nt, "cls": [(f"len:{len(entries)}" if len(entries) <= 8 else "len:long(33-150)"), f"invalid:{min(n_invalid, 3)}", f"fixed:{min(n_fixed, 3)}", "mixed-arity" if len(arities) == 2 else "one-arity"],
             "sample": {"entries": case["entries"], "mode": mode, "very": very, "out": [[r[0] if isinstance(r[0], (str, type(None))) else str(r[0]), r[1]] for r in out]}}
 
 
@@ -155,7 +155,7 @@ def strategy(draw):
     if draw(st.integers(0, 24)) == 0:
         # long lists (a site-wide palette audit): order and one-result-per-entry must hold at any length - batching, paging
         # or a worker pool that only engages beyond some size would break them
-        n = draw(st.sampled_from([33, 48, 64, 101, 210, 300]))
+        n = draw(st.sampled_from([33, 48, 64, 101, 150]))
     idx = draw(st.lists(st.integers(0, len(pool) - 1), min_size=n, max_size=n))
     entries = [pool[i] for i in idx]
     case = {"entries": entries, "mode": draw(st.sampled_from([0, 1, 1, 2])), "very": draw(st.booleans())}
